@@ -91,8 +91,11 @@ def gen_case(rng, max_conf=9):
         f = rng.randint(1, nfiles)
         while True:
             l, c = rng.randint(1, 60), rng.randint(1, 9)
-            if (f, l) not in used:      # reported lines are unique per file: a diagnostic identifies its conflict
-                used.add((f, l))
+            same = [u for u in used if u[0] == f]
+            if same and rng.random() < 0.3:     # a second finding on a line that already has one (seed c13g)
+                l = rng.choice(sorted(same))[1]
+            if (f, l, c) not in used:      # reported positions are unique: a diagnostic identifies its conflict
+                used.add((f, l, c))
                 break
         off = l * 100 + c
         if rng.random() < 0.75:
@@ -110,6 +113,11 @@ def gen_case(rng, max_conf=9):
         # the object a single-assertion conflict reads nil from: a small pool of declaration positions (same-named locals)
         src = (True, f, rng.choice([2, 2, 8]), rng.choice([1, 4])) if (not nil and rng.random() < 0.7) else NOPOS
         conflicts.append(dict(id=i, pos=(f, l, c, off), nil=nil, nonnil=nonnil, src=src))
+    # conflicts that share a line are told apart by their dereference point (the last flow step): give each one its own
+    online = Counter((c["pos"][0], c["pos"][1]) for c in conflicts)
+    for c in conflicts:
+        if online[(c["pos"][0], c["pos"][1])] > 1:
+            c["nonnil"][-1] = dict(c["nonnil"][-1], cp=(True, c["pos"][0], c["pos"][1], c["pos"][2]))
     # a few conflicts share the exact sort key (file, offset) with another one
     if len(conflicts) >= 2 and rng.random() < 0.3:
         a, b = rng.sample(range(len(conflicts)), 2)
